@@ -5,8 +5,20 @@
 //! `log::max_level()`, `log::logger().enabled(..)` for targets × five levels, and what
 //! `log::log!(target: t, lvl, "x")` delivered.
 //! case:  initPath  targets(,)  first configuration (4 fields, see c01.rs)  then per step: kind + 4 fields,
-//!        kind = set | reinit-config | reinit-handler | reinit-raw | reinit-file
-//! obs:   steps joined by `/`:  max : enabled bits : deliveries(, per target × level; names joined by ;)
+//!        kind = set | set@0 | set@1 | set@2 | reload | reinit-config | reinit-handler | reinit-raw | reinit-file
+//!        `set@k`: Handle::set_config through clone k of the handle (0 = the one init returned, 1 = a clone taken
+//!        at init, 2 = a clone of handle 0 taken at its first use, moved to a worker thread for every call and
+//!        handed back by `join` before anything is observed)
+//!        `reload` (path `file` only): the file is rewritten and the file reloader is stepped once
+//!        (`VerifReloader::step` = `ConfigReloader::run_once`) on the installed logger's handle
+//!        initPath may carry `@<json|yaml|toml><flags>`: how raw / file documents are rendered; flag `O` leaves
+//!        out `root`, `root.level`, `appenders`, `additive`, `loggers` where the configuration has the default,
+//!        flag `U` spells levels in upper case
+//!        inside a name, `^n` stands for the n-component name `a::a::…::a`
+//! obs:   `ABORT` when the child was killed by a signal (stack overflow), else
+//!        steps joined by `/`:  max : reported : enabled bits : deliveries(, per target × level; names joined by ;)
+//!        `reported` = `Logger::max_log_level()` of a second, not installed logger that is configured and
+//!        reconfigured in the same way (through `verif_handle` / its own reloader on the same file)
 //!        re-initialisation steps are prefixed `E!` (returned Err) or `K!` (returned Ok)
 //! Paths `config` / `handler` use capturing appenders. Paths `raw` / `file` can only name built-in appender
 //! kinds: every appender is a `file` appender in append mode on one shared scratch file whose pattern is the
@@ -88,14 +100,6 @@ fn one_cfg(rng: &mut Rng) -> Cfg {
 /// a configuration for a failing re-initialisation: quieter / more verbose than `cur`, unrelated, or
 /// (raw path only — the runtime `Config` type cannot hold one) not even valid
 fn reinit_cfg(rng: &mut Rng, cur: &Cfg, allow_invalid: bool) -> Cfg {
-    let uniform = |c: &Cfg, v: u8| -> Cfg {
-        let mut d = c.clone();
-        d.root_level = v;
-        for l in d.loggers.iter_mut() {
-            l.level = v;
-        }
-        d
-    };
     match rng.below(if allow_invalid { 8 } else { 6 }) {
         0 => uniform(cur, 0),
         1 => uniform(cur, 5),
@@ -118,20 +122,178 @@ fn reinit_cfg(rng: &mut Rng, cur: &Cfg, allow_invalid: bool) -> Cfg {
     }
 }
 
+/// Many loggers, a long spine, a wide fan-out under one node; the deepest logger is the only one as verbose
+/// as the maximum. Returns the configuration and targets at and below the deepest logger and around the tree.
+fn big_cfg(rng: &mut Rng, thorough: bool) -> (Cfg, Vec<String>) {
+    let comps = ["a", "b", "ab", "é", "c"];
+    let depth = *rng.pick(&[5usize, 6, 7, 8, 12, 33, 65]);
+    let total = if rng.chance(if thorough { 1 } else { 3 }, 4) { rng.range(10, 40) } else { rng.range(41, 200) } as usize;
+    let spine: Vec<&str> = (0..depth).map(|_| *rng.pick(&comps)).collect();
+    let deep = spine.join("::");
+    let top = rng.range(2, 5) as u8;
+    let quiet = |rng: &mut Rng| rng.range(0, top as u64 - 1) as u8;
+    let refs = |rng: &mut Rng| -> Vec<String> {
+        match rng.below(4) {
+            0 => vec![],
+            1 => vec!["x".into()],
+            2 => vec!["y".into()],
+            _ => vec!["y".into(), "x".into()],
+        }
+    };
+    let mut loggers = vec![LCfg { name: deep.clone(), level: top, additive: rng.chance(2, 3), refs: vec!["x".into()] }];
+    let mut names: Vec<String> = vec![deep.clone()];
+    // some ancestors on the spine are configured (quieter), the others are implied
+    for k in 1..depth {
+        if rng.chance(1, 3) && loggers.len() < total {
+            let n = spine[..k].join("::");
+            names.push(n.clone());
+            loggers.push(LCfg { name: n, level: quiet(rng), additive: rng.chance(3, 4), refs: refs(rng) });
+        }
+    }
+    // a wide fan-out under one node of the spine
+    let at = rng.range(1, depth as u64 - 1) as usize;
+    let width = rng.range(5, (total as u64 * 2 / 3).max(6)) as usize;
+    let hub = spine[..at].join("::");
+    let mut fan = String::new();
+    for i in 0..width {
+        if loggers.len() >= total {
+            break;
+        }
+        let n = format!("{}::k{}", hub, i);
+        if i == 0 {
+            fan = n.clone();
+        }
+        names.push(n.clone());
+        loggers.push(LCfg { name: n, level: quiet(rng), additive: rng.chance(3, 4), refs: refs(rng) });
+    }
+    // the rest anywhere, shallow
+    let mut guard = 0;
+    while loggers.len() < total && guard < 1000 {
+        guard += 1;
+        let d = rng.range(1, 4) as usize;
+        let n = (0..d).map(|_| *rng.pick(&comps)).collect::<Vec<_>>().join("::");
+        if !names.contains(&n) {
+            names.push(n.clone());
+            loggers.push(LCfg { name: n, level: quiet(rng), additive: rng.chance(3, 4), refs: refs(rng) });
+        }
+    }
+    rng.shuffle(&mut loggers);
+    let c = Cfg {
+        appenders: vec!["x".into(), "y".into()],
+        root_level: quiet(rng),
+        root_refs: if rng.chance(1, 2) { vec!["y".into()] } else { vec![] },
+        loggers,
+    };
+    let mut targets = vec![deep.clone(), format!("{}::z", deep), format!("{}::z::a", deep), spine[..depth - 1].join("::")];
+    if !fan.is_empty() {
+        targets.push(fan);
+    }
+    targets.push(format!("{}::k", hub));
+    (c, targets)
+}
+
+fn uniform(c: &Cfg, v: u8) -> Cfg {
+    let mut d = c.clone();
+    d.root_level = v;
+    for l in d.loggers.iter_mut() {
+        l.level = v;
+    }
+    d
+}
+
+/// the deep-name class: one logger name of n components, installed through every init path, replaced (which
+/// drops the deep tree) and installed again through set_config / the reloader
+fn gen_deep(emit: &mut dyn FnMut(String), thorough: bool) {
+    let ns: &[usize] = if thorough { &[64, 65, 1000, 2500, 5000, 20000, 50000] } else { &[64, 1000, 5000, 20000] };
+    for &n in ns {
+        let deep = deep_name(n);
+        let token = format!("^{}", n);
+        for path in ["config", "handler", "raw@json", "file@yaml", "file@json"] {
+            // quick tier: the 20000-component cases of these three paths are corpus lines already
+            if !thorough && n == 20000 && matches!(path, "config" | "raw@json" | "file@yaml") {
+                continue;
+            }
+            let verbose = Cfg {
+                appenders: vec!["x".into()],
+                root_level: 1,
+                root_refs: vec![],
+                loggers: vec![
+                    LCfg { name: deep.clone(), level: 5, additive: false, refs: vec!["x".into()] },
+                    LCfg { name: "a".into(), level: 2, additive: true, refs: vec![] },
+                ],
+            };
+            let quiet = uniform(&verbose, 1);
+            let mut targets: Vec<String> = vec!["".into(), "a".into(), "a::a".into(), "b".into()];
+            // (the executable Spec walks every prefix of a target against every logger name: quadratic)
+            if n <= 100 {
+                targets.push(deep.clone());
+                targets.push(format!("{}::b", deep));
+            } else if n <= 1000 && path == "config" {
+                targets.push(deep.clone());
+            }
+            let step = match path {
+                "config" => "set@0",
+                "handler" => "set@2",
+                "file@yaml" => "reload",
+                "file@json" => "set@1",
+                _ => "",
+            };
+            let ts: Vec<String> = targets.iter().map(|t| enc_str(t)).collect();
+            let mut line = format!("{}\t{}\t{}", path, enc_list(",", &ts), verbose.encode());
+            if !step.is_empty() {
+                line.push_str(&format!("\t{}\t{}\t{}\t{}", step, quiet.encode(), step, verbose.encode()));
+            }
+            emit(line.replace(&deep_hex(n), &token));
+        }
+    }
+}
+
 pub fn gen(rng: &mut Rng, n: usize, thorough: bool, emit: &mut dyn FnMut(String)) {
+    gen_deep(emit, thorough);
     for i in 0..n {
-        let path = match i % 10 {
-            0..=3 => "config",
-            4..=6 => "handler",
-            7 | 8 => "raw",
+        let base = match i % 10 {
+            0..=2 => "config",
+            3..=5 => "handler",
+            6 => "raw",
             _ => "file",
         };
-        let has_handle = path == "config" || path == "handler";
-        let first = one_cfg(rng);
+        // rendering of raw / file documents (also of the failing re-initialisations of the other paths)
+        let fmt = *rng.pick(&["json", "yaml", "toml"]);
+        let omit = rng.chance(1, 2);
+        let upper = rng.chance(1, 3);
+        let path = format!("{}@{}{}{}", base, fmt, if omit { "O" } else { "" }, if upper { "U" } else { "" });
+        // a file history goes on with reloads (and then has a handle) in three cases of four
+        let reloads = base == "file" && i % 40 >= 10;
+        let has_handle = base == "config" || base == "handler" || reloads;
+        let big = i % 16 == 5;
+        let mut extra_targets: Vec<String> = vec![];
+        let mut fresh = |rng: &mut Rng, extra: &mut Vec<String>| -> Cfg {
+            let mut c = if big && rng.chance(2, 3) {
+                let (c, ts) = big_cfg(rng, thorough);
+                extra.extend(ts);
+                c
+            } else {
+                one_cfg(rng)
+            };
+            // the default root (level Debug, no appenders), which an `O` document leaves out altogether;
+            // sometimes alone at the maximum
+            if omit && rng.chance(1, 3) {
+                c.root_level = 4;
+                c.root_refs.clear();
+                if rng.chance(1, 2) {
+                    for l in c.loggers.iter_mut() {
+                        l.level = l.level.min(3);
+                    }
+                }
+            }
+            c
+        };
+        let first = fresh(rng, &mut extra_targets);
         let mut cfgs = vec![first.clone()]; // for the targets
+        let mut installed = vec![first.clone()];
         let mut cur = first.clone();
         let mut steps: Vec<(String, Cfg)> = vec![];
-        let k = rng.range(0, if thorough { 8 } else { 4 });
+        let k = rng.range(0, if thorough { 8 } else { 4 }).min(if big { 3 } else { 8 });
         // a third of the histories have no failed re-initialisation at all
         let reinit_rate = if i % 3 == 0 { 0 } else { 2 };
         for _ in 0..k {
@@ -144,28 +306,26 @@ pub fn gen(rng: &mut Rng, n: usize, thorough: bool, emit: &mut dyn FnMut(String)
                 cfgs.push(c.clone());
                 steps.push((kind.to_string(), c));
             } else {
-                let next = match rng.below(5) {
-                    0 => one_cfg(rng),
-                    1 => {
-                        // everything off, or everything maximal
-                        let mut d = cur.clone();
-                        let v = if rng.chance(1, 2) { 0 } else { 5 };
-                        d.root_level = v;
-                        for l in d.loggers.iter_mut() {
-                            l.level = v;
-                        }
-                        d
-                    }
+                let next = match rng.below(8) {
+                    0 => fresh(rng, &mut extra_targets),
+                    1 => uniform(&cur, if rng.chance(1, 2) { 0 } else { 5 }),
+                    // back to the configuration before the current one (A -> B -> A)
+                    2 | 3 | 4 if installed.len() >= 2 => installed[installed.len() - 2].clone(),
                     _ => mutate_levels(rng, &cur),
                 };
                 cur = next.clone();
                 cfgs.push(next.clone());
-                steps.push(("set".to_string(), next));
+                installed.push(next.clone());
+                let kind = if reloads && rng.chance(3, 4) { "reload".to_string() } else { format!("set@{}", rng.below(3)) };
+                steps.push((kind, next));
             }
         }
         // targets: configured names over all steps, extensions, partial matches, oddities
         let mut targets: Vec<String> = vec![];
         for c in &cfgs {
+            if c.loggers.len() > 8 {
+                continue;
+            }
             let valid_names = Cfg { loggers: c.loggers.iter().filter(|l| l.name != "a:b").cloned().collect(), ..c.clone() };
             for t in c01::targets_for(rng, &valid_names, 4) {
                 if !targets.contains(&t) {
@@ -175,6 +335,13 @@ pub fn gen(rng: &mut Rng, n: usize, thorough: bool, emit: &mut dyn FnMut(String)
         }
         rng.shuffle(&mut targets);
         targets.truncate(if thorough { 8 } else { 5 });
+        rng.shuffle(&mut extra_targets);
+        extra_targets.truncate(6);
+        for t in extra_targets {
+            if !targets.contains(&t) {
+                targets.push(t);
+            }
+        }
         for s in ["", "a::b"] {
             if !targets.iter().any(|t| t == s) {
                 targets.push(s.to_string());
@@ -187,10 +354,142 @@ pub fn gen(rng: &mut Rng, n: usize, thorough: bool, emit: &mut dyn FnMut(String)
 }
 
 // ------------------------------------------------------------------------------------------------
+// shared by generator, parent and child: the `^n` token and the rendering options
+// ------------------------------------------------------------------------------------------------
+pub fn deep_name(n: usize) -> String {
+    vec!["a"; n].join("::")
+}
+
+fn deep_hex(n: usize) -> String {
+    enc_str(&deep_name(n))
+}
+
+/// expand every `^n` token of a field
+fn expand_deep(field: &str) -> Option<String> {
+    if !field.contains('^') {
+        return Some(field.to_owned());
+    }
+    let mut it = field.split('^');
+    let mut out = it.next()?.to_owned();
+    for piece in it {
+        let digits: String = piece.chars().take_while(|c| c.is_ascii_digit()).collect();
+        let n: usize = digits.parse().ok()?;
+        if n == 0 || n > 100_000 {
+            return None;
+        }
+        out.push_str(&deep_hex(n));
+        out.push_str(&piece[digits.len()..]);
+    }
+    Some(out)
+}
+
+#[derive(Clone, Copy)]
+struct Render {
+    fmt: &'static str,
+    omit: bool,
+    upper: bool,
+}
+
+const PLAIN: Render = Render { fmt: "json", omit: false, upper: false };
+
+/// `file@yamlOU` -> ("file", Render)
+fn split_path(field: &str) -> Option<(&str, Render)> {
+    let (p, r) = match field.split_once('@') {
+        Some((p, r)) => (p, r),
+        None => return if PATHS.contains(&field) { Some((field, PLAIN)) } else { None },
+    };
+    if !PATHS.contains(&p) || r.len() < 4 {
+        return None;
+    }
+    let fmt = match &r[..4] {
+        "json" => "json",
+        "yaml" => "yaml",
+        "toml" => "toml",
+        _ => return None,
+    };
+    let flags = &r[4..];
+    if !flags.chars().all(|c| c == 'O' || c == 'U') {
+        return None;
+    }
+    Some((p, Render { fmt, omit: flags.contains('O'), upper: flags.contains('U') }))
+}
+
+/// the document of a configuration: every appender a `file` appender in append mode on `out`
+fn render_doc(c: &Cfg, out: &std::path::Path, r: Render, refresh_secs: Option<u64>) -> Result<String, String> {
+    use serde_json::{json, Map, Value};
+    let lvl = |l: u8| -> String {
+        let s = LEVEL_NAMES[l as usize];
+        if r.upper {
+            s.to_uppercase()
+        } else {
+            s.to_owned()
+        }
+    };
+    let mut doc = Map::new();
+    if let Some(s) = refresh_secs {
+        doc.insert("refresh_rate".into(), json!(format!("{} seconds", s)));
+    }
+    if !(r.omit && c.appenders.is_empty()) {
+        let mut apps = Map::new();
+        for a in &c.appenders {
+            apps.insert(
+                a.clone(),
+                json!({"kind": "file", "path": out.to_str().unwrap(), "append": true,
+                       "encoder": {"kind": "pattern", "pattern": format!("{}{{n}}", enc_str(a))}}),
+            );
+        }
+        doc.insert("appenders".into(), Value::Object(apps));
+    }
+    // the default root: level Debug, no appenders
+    let mut root = Map::new();
+    if !(r.omit && c.root_level == 4) {
+        root.insert("level".into(), json!(lvl(c.root_level)));
+    }
+    if !(r.omit && c.root_refs.is_empty()) {
+        root.insert("appenders".into(), json!(c.root_refs));
+    }
+    if !(r.omit && root.is_empty()) {
+        doc.insert("root".into(), Value::Object(root));
+    }
+    if !(r.omit && c.loggers.is_empty()) {
+        let mut loggers = Map::new();
+        for l in &c.loggers {
+            let mut m = Map::new();
+            m.insert("level".into(), json!(lvl(l.level)));
+            if !(r.omit && l.additive) {
+                m.insert("additive".into(), json!(l.additive));
+            }
+            if !(r.omit && l.refs.is_empty()) {
+                m.insert("appenders".into(), json!(l.refs));
+            }
+            loggers.insert(l.name.clone(), Value::Object(m));
+        }
+        doc.insert("loggers".into(), Value::Object(loggers));
+    }
+    let doc = Value::Object(doc);
+    match r.fmt {
+        "yaml" => serde_yaml::to_string(&doc).map_err(|e| e.to_string()),
+        "toml" => {
+            let v = toml::Value::try_from(&doc).map_err(|e| e.to_string())?;
+            toml::to_string(&v).map_err(|e| e.to_string())
+        }
+        _ => Ok(doc.to_string()),
+    }
+}
+
+fn parse_raw(doc: &str, r: Render) -> Result<log4rs::config::RawConfig, String> {
+    match r.fmt {
+        "yaml" => serde_yaml::from_str(doc).map_err(|e| e.to_string()),
+        "toml" => toml::from_str(doc).map_err(|e| e.to_string()),
+        _ => serde_json::from_str(doc).map_err(|e| e.to_string()),
+    }
+}
+
+// ------------------------------------------------------------------------------------------------
 // parent side: spawn the child, hand it the case, return its observation
 // ------------------------------------------------------------------------------------------------
 pub fn exec(fields: &[&str]) -> String {
-    if fields.len() < 6 || (fields.len() - 6) % 5 != 0 || !PATHS.contains(&fields[0]) {
+    if fields.len() < 6 || (fields.len() - 6) % 5 != 0 || split_path(fields[0]).is_none() {
         return "bad-case".to_owned();
     }
     let exe = match std::env::current_exe() {
@@ -215,10 +514,24 @@ pub fn exec(fields: &[&str]) -> String {
     let mut out = String::new();
     let _ = ch.stdout.take().unwrap().read_to_string(&mut out);
     let status = ch.wait();
+    // a child that died leaves its scratch directory behind
+    if let Ok(base) = std::env::var("VERIF_SCRATCH") {
+        let _ = std::fs::remove_dir_all(std::path::Path::new(&base).join(format!("c02_{}", ch.id())));
+    }
     let line = out.lines().next().unwrap_or("").to_owned();
     match status {
         Ok(s) if s.success() && !line.is_empty() => line,
-        Ok(s) => format!("CHILD-FAILED:{}:{}", s.code().unwrap_or(-1), line),
+        Ok(s) => {
+            #[cfg(unix)]
+            {
+                use std::os::unix::process::ExitStatusExt;
+                if let Some(sig) = s.signal() {
+                    // SIGABRT (the runtime's stack-overflow handler) or SIGSEGV
+                    return format!("ABORT:signal{}", sig);
+                }
+            }
+            format!("CHILD-FAILED:{}:{}", s.code().unwrap_or(-1), line)
+        }
         Err(_) => "INFRA:wait".to_owned(),
     }
 }
@@ -226,52 +539,28 @@ pub fn exec(fields: &[&str]) -> String {
 // ------------------------------------------------------------------------------------------------
 // child side
 // ------------------------------------------------------------------------------------------------
-enum Capture {
-    Memory(Arc<Mutex<Vec<String>>>),
-    File { path: std::path::PathBuf, offset: u64 },
+/// what the capturing appenders (paths `config` / `handler`, and every `set` step) and the file appenders of
+/// rendered documents (paths `raw` / `file`, every `reload` step) received; a configuration has appenders of
+/// one sort only
+struct Capture {
+    memory: Arc<Mutex<Vec<String>>>,
+    file: std::path::PathBuf,
+    offset: u64,
 }
 
 impl Capture {
     /// what was delivered since the last call
     fn take(&mut self) -> Vec<String> {
-        match self {
-            Capture::Memory(s) => std::mem::take(&mut *s.lock().unwrap()),
-            Capture::File { path, offset } => {
-                let data = std::fs::read(&*path).unwrap_or_default();
-                let new = data[(*offset as usize).min(data.len())..].to_vec();
-                *offset = data.len() as u64;
-                String::from_utf8_lossy(&new).lines().map(|l| dec_str(l).unwrap_or_else(|| format!("?{}", l))).collect()
-            }
-        }
+        let mut got = std::mem::take(&mut *self.memory.lock().unwrap());
+        let data = std::fs::read(&self.file).unwrap_or_default();
+        let new = data[(self.offset as usize).min(data.len())..].to_vec();
+        self.offset = data.len() as u64;
+        got.extend(String::from_utf8_lossy(&new).lines().map(|l| dec_str(l).unwrap_or_else(|| format!("?{}", l))));
+        got
     }
 }
 
-fn raw_json(c: &Cfg, out: &std::path::Path) -> String {
-    use serde_json::{json, Map, Value};
-    let mut apps = Map::new();
-    for a in &c.appenders {
-        apps.insert(
-            a.clone(),
-            json!({"kind": "file", "path": out.to_str().unwrap(), "append": true,
-                   "encoder": {"kind": "pattern", "pattern": format!("{}{{n}}", enc_str(a))}}),
-        );
-    }
-    let mut loggers = Map::new();
-    for l in &c.loggers {
-        loggers.insert(
-            l.name.clone(),
-            json!({"level": LEVEL_NAMES[l.level as usize], "additive": l.additive, "appenders": l.refs}),
-        );
-    }
-    let doc = json!({
-        "appenders": Value::Object(apps),
-        "root": {"level": LEVEL_NAMES[c.root_level as usize], "appenders": c.root_refs},
-        "loggers": Value::Object(loggers),
-    });
-    doc.to_string()
-}
-
-fn observe(targets: &[String], cap: &mut Capture) -> String {
+fn observe(targets: &[String], cap: &mut Capture, reported: log::LevelFilter) -> String {
     let _ = cap.take();
     let max = c01::filter_num(log::max_level());
     let mut bits = String::new();
@@ -288,7 +577,16 @@ fn observe(targets: &[String], cap: &mut Capture) -> String {
             deliv.push(c01::render_names(&cap.take()));
         }
     }
-    format!("{}:{}:{}", max, bits, enc_list(",", &deliv))
+    format!("{}:{}:{}:{}", max, c01::filter_num(reported), bits, enc_list(",", &deliv))
+}
+
+/// runs something that writes the facade's global maximum as a side effect (`Handle::set_config` of the
+/// NOT installed second logger) and puts back what the installed logger's side had left there
+fn aside<T>(f: impl FnOnce() -> T) -> T {
+    let g = log::max_level();
+    let r = f();
+    log::set_max_level(g);
+    r
 }
 
 struct Scratch {
@@ -312,8 +610,16 @@ impl Scratch {
     }
 }
 
+/// write a configuration file with an explicit, strictly increasing mtime
+fn put_file(p: &std::path::Path, text: &str, seq: u64) -> Result<(), String> {
+    std::fs::write(p, text).map_err(|e| e.to_string())?;
+    let f = std::fs::OpenOptions::new().write(true).open(p).map_err(|e| e.to_string())?;
+    f.set_modified(std::time::UNIX_EPOCH + std::time::Duration::from_secs(1_700_000_000 + 10 * seq))
+        .map_err(|e| e.to_string())
+}
+
 /// a further initialisation attempt through the given path; Ok(true) = the call returned Err
-fn reinit(kind: &str, c: &Cfg, sink: &Arc<Mutex<Vec<String>>>, scratch: &mut Scratch) -> Result<bool, String> {
+fn reinit(kind: &str, c: &Cfg, sink: &Arc<Mutex<Vec<String>>>, scratch: &mut Scratch, r: Render) -> Result<bool, String> {
     match kind {
         "reinit-config" => {
             let cfg = c01::build_config(c, sink)?;
@@ -325,67 +631,139 @@ fn reinit(kind: &str, c: &Cfg, sink: &Arc<Mutex<Vec<String>>>, scratch: &mut Scr
         }
         "reinit-raw" => {
             let out = scratch.fresh("reinit", "log")?;
-            let doc = raw_json(c, &out);
-            let raw: log4rs::config::RawConfig = serde_json::from_str(&doc).map_err(|e| e.to_string())?;
+            let doc = render_doc(c, &out, r, None)?;
+            let raw = parse_raw(&doc, r)?;
             Ok(log4rs::init_raw_config(raw).is_err())
         }
         "reinit-file" => {
             let out = scratch.fresh("reinit", "log")?;
-            let f = scratch.fresh("cfg", "json")?;
-            std::fs::write(&f, raw_json(c, &out)).map_err(|e| e.to_string())?;
+            let f = scratch.fresh("cfg", r.fmt)?;
+            std::fs::write(&f, render_doc(c, &out, r, None)?).map_err(|e| e.to_string())?;
             Ok(log4rs::init_file(&f, Default::default()).is_err())
         }
         _ => Err(format!("step kind {}", kind)),
     }
 }
 
-fn child_run(fields: &[&str]) -> Result<String, String> {
-    let path = fields[0];
-    let targets: Vec<String> = dec_list(',', fields[1]).iter().map(|t| dec_str(t)).collect::<Option<_>>().ok_or("targets")?;
-    let first = Cfg::decode(&fields[2..6]).ok_or("config")?;
+fn empty_logger() -> log4rs::Logger {
+    log4rs::Logger::new(
+        log4rs::Config::builder().build(log4rs::config::Root::builder().build(log::LevelFilter::Off)).unwrap(),
+    )
+}
+
+fn child_run(fields: &[String]) -> Result<String, String> {
+    use log4rs::verif_hooks::VerifReloader;
+    let (path, render) = split_path(&fields[0]).ok_or("path")?;
+    let targets: Vec<String> =
+        dec_list(',', &expand_deep(&fields[1]).ok_or("targets")?).iter().map(|t| dec_str(t)).collect::<Option<_>>().ok_or("targets")?;
+    let dec_cfg = |f: &[String]| -> Option<Cfg> {
+        let ls = expand_deep(&f[3])?;
+        Cfg::decode(&[f[0].as_str(), f[1].as_str(), f[2].as_str(), ls.as_str()])
+    };
+    let first = dec_cfg(&fields[2..6]).ok_or("config")?;
     let mut steps: Vec<(String, Cfg)> = vec![];
     for ch in fields[6..].chunks(5) {
-        steps.push((ch[0].to_string(), Cfg::decode(&ch[1..]).ok_or("config")?));
+        steps.push((ch[0].to_string(), dec_cfg(&ch[1..]).ok_or("config")?));
     }
     let mut out: Vec<String> = vec![];
     let sink = Arc::new(Mutex::new(Vec::<String>::new()));
+    // appenders of the second logger: never called
+    let sink2 = Arc::new(Mutex::new(Vec::<String>::new()));
     let mut scratch = Scratch { dir: None, seq: 0 };
     let result = (|| -> Result<(), String> {
-        let mut handle: Option<log4rs::Handle> = None;
-        let mut cap = match path {
+        let log = scratch.dir()?.join("out.log");
+        let log2 = scratch.dir()?.join("out2.log");
+        let mut cap = Capture { memory: sink.clone(), file: log.clone(), offset: 0 };
+        // handles[0] = what init returned, [1] = a clone taken at init, [2] = a clone taken at first use
+        let mut handles: [Option<log4rs::Handle>; 3] = [None, None, None];
+        let mut reloaders: Option<(VerifReloader, VerifReloader, std::time::Duration)> = None;
+        let mut file_seq = 0u64;
+        let cfg_file = scratch.dir()?.join(format!("cfg.{}", render.fmt));
+        let cfg_file2 = scratch.dir()?.join(format!("cfg2.{}", render.fmt));
+        // `init_file` hands nobody a handle: when the history goes on with a reload or a set_config, the child
+        // does what init_file does (load the file, init_config, reloader on the returned handle) itself
+        let mirrored = path == "file" && steps.iter().any(|(k, _)| k == "reload" || k.starts_with("set"));
+        let shadow: log4rs::Logger = match path {
             "config" | "handler" => {
                 let cfg = c01::build_config(&first, &sink)?;
-                handle = Some(if path == "config" {
+                handles[0] = Some(if path == "config" {
                     log4rs::init_config(cfg).map_err(|e| e.to_string())?
                 } else {
                     log4rs::config::init_config_with_err_handler(cfg, Box::new(|_e: &anyhow::Error| {}))
                         .map_err(|e| e.to_string())?
                 });
-                Capture::Memory(sink.clone())
+                log4rs::Logger::new(c01::build_config(&first, &sink2)?)
+            }
+            "raw" => {
+                let doc = render_doc(&first, &log, render, None)?;
+                log4rs::init_raw_config(parse_raw(&doc, render)?).map_err(|e| e.to_string())?;
+                std::fs::write(&cfg_file2, render_doc(&first, &log2, render, None)?).map_err(|e| e.to_string())?;
+                log4rs::Logger::new(
+                    log4rs::config::load_config_file(&cfg_file2, Default::default()).map_err(|e| e.to_string())?,
+                )
+            }
+            _ if !mirrored => {
+                std::fs::write(&cfg_file, render_doc(&first, &log, render, None)?).map_err(|e| e.to_string())?;
+                log4rs::init_file(&cfg_file, Default::default()).map_err(|e| e.to_string())?;
+                std::fs::write(&cfg_file2, render_doc(&first, &log2, render, None)?).map_err(|e| e.to_string())?;
+                log4rs::Logger::new(
+                    log4rs::config::load_config_file(&cfg_file2, Default::default()).map_err(|e| e.to_string())?,
+                )
             }
             _ => {
-                let log = scratch.dir()?.join("out.log");
-                let doc = raw_json(&first, &log);
-                if path == "raw" {
-                    let raw: log4rs::config::RawConfig = serde_json::from_str(&doc).map_err(|e| e.to_string())?;
-                    log4rs::init_raw_config(raw).map_err(|e| e.to_string())?;
-                } else {
-                    let f = scratch.dir()?.join("cfg.json");
-                    std::fs::write(&f, doc).map_err(|e| e.to_string())?;
-                    log4rs::init_file(&f, Default::default()).map_err(|e| e.to_string())?;
-                }
-                Capture::File { path: log, offset: 0 }
+                put_file(&cfg_file, &render_doc(&first, &log, render, Some(30))?, file_seq)?;
+                put_file(&cfg_file2, &render_doc(&first, &log2, render, Some(30))?, file_seq)?;
+                let cfg = log4rs::config::load_config_file(&cfg_file, Default::default()).map_err(|e| e.to_string())?;
+                let h = log4rs::init_config(cfg).map_err(|e| e.to_string())?;
+                let (_again, rate, rel) =
+                    VerifReloader::new(&cfg_file, Default::default(), h.clone()).map_err(|e| e.to_string())?;
+                handles[0] = Some(h);
+                let shadow = empty_logger();
+                let sh = shadow.verif_handle();
+                let (cfg2, _rate2, rel2) =
+                    VerifReloader::new(&cfg_file2, Default::default(), sh.clone()).map_err(|e| e.to_string())?;
+                aside(|| sh.set_config(cfg2));
+                reloaders = Some((rel, rel2, rate.ok_or("no refresh rate")?));
+                shadow
             }
         };
-        out.push(observe(&targets, &mut cap));
+        handles[1] = handles[0].clone();
+        out.push(observe(&targets, &mut cap, shadow.max_log_level()));
         for (kind, c) in &steps {
-            if kind == "set" {
-                let h = handle.as_ref().ok_or("set_config without a handle")?;
-                h.set_config(c01::build_config(c, &sink)?);
-                out.push(observe(&targets, &mut cap));
+            if kind == "set" || kind.starts_with("set@") {
+                let k: usize = if kind == "set" { 0 } else { kind[4..].parse().map_err(|_| "handle index")? };
+                if k > 2 {
+                    return Err("handle index".into());
+                }
+                let cfg = c01::build_config(c, &sink)?;
+                if k == 2 {
+                    let h = match handles[2].take() {
+                        Some(h) => h,
+                        None => handles[0].as_ref().ok_or("set_config without a handle")?.clone(),
+                    };
+                    let t = std::thread::spawn(move || {
+                        h.set_config(cfg);
+                        h
+                    });
+                    handles[2] = Some(t.join().map_err(|_| "worker thread panicked")?);
+                } else {
+                    handles[k].as_ref().ok_or("set_config without a handle")?.set_config(cfg);
+                }
+                let cfg2 = c01::build_config(c, &sink2)?;
+                aside(|| shadow.verif_handle().set_config(cfg2));
+                out.push(observe(&targets, &mut cap, shadow.max_log_level()));
+            } else if kind == "reload" {
+                let (rel, rel2, rate) = reloaders.as_mut().ok_or("reload without a reloader")?;
+                file_seq += 1;
+                // a distinct refresh rate makes every text differ from the one the reloader remembers
+                put_file(&cfg_file, &render_doc(c, &log, render, Some(30 + file_seq))?, file_seq)?;
+                put_file(&cfg_file2, &render_doc(c, &log2, render, Some(30 + file_seq))?, file_seq)?;
+                *rate = rel.step(*rate).map_err(|e| e.to_string())?.ok_or("reloader stopped")?;
+                aside(|| rel2.step(*rate)).map_err(|e| e.to_string())?;
+                out.push(observe(&targets, &mut cap, shadow.max_log_level()));
             } else {
-                let failed = reinit(kind, c, &sink, &mut scratch)?;
-                out.push(format!("{}{}", if failed { "E!" } else { "K!" }, observe(&targets, &mut cap)));
+                let failed = reinit(kind, c, &sink, &mut scratch, render)?;
+                out.push(format!("{}{}", if failed { "E!" } else { "K!" }, observe(&targets, &mut cap, shadow.max_log_level())));
             }
         }
         Ok(())
@@ -396,18 +774,27 @@ fn child_run(fields: &[&str]) -> Result<String, String> {
     result.map(|()| out.join("/"))
 }
 
-/// `verif-harness child c02`: the case line (without the property id) on stdin, the observation on stdout
+/// `verif-harness child c02`: the case line (without the property id) on stdin, the observation on stdout.
+/// The case runs on a spawned thread with the default stack of a spawned thread (2 MiB), as an application
+/// thread that initialises and reconfigures logging has.
 pub fn child(_args: &[String]) -> i32 {
     let mut line = String::new();
     if std::io::stdin().read_line(&mut line).is_err() {
         return 2;
     }
     let line = line.trim_end_matches('\n').to_owned();
-    let fields: Vec<&str> = line.split('\t').collect();
+    let fields: Vec<String> = line.split('\t').map(|s| s.to_owned()).collect();
     if fields.len() < 6 {
         return 2;
     }
-    let r = guarded(std::panic::AssertUnwindSafe(|| child_run(&fields)));
+    let t = std::thread::Builder::new()
+        .name("application".into())
+        .stack_size(2 * 1024 * 1024)
+        .spawn(move || guarded(std::panic::AssertUnwindSafe(|| child_run(&fields))));
+    let r = match t {
+        Ok(t) => t.join().unwrap_or_else(|_| Err("panic".into())),
+        Err(_) => return 2,
+    };
     let obs = match r {
         Ok(Ok(s)) => s,
         Ok(Err(e)) => format!("ERROR:{}", e.replace(['\n', '\t'], " ")),
